@@ -40,8 +40,14 @@ c11_stub_code(void *coder_ptr, const lzma_allocator *allocator,
 	size_t c = s->want_c, p = s->want_p;
 	if (c > in_size - *in_pos) c = in_size - *in_pos;
 	if (p > out_size - *out_pos) p = out_size - *out_pos;
-	for (size_t i = 0; i < c; ++i)
-		s->in_sum += in[*in_pos + i];
+	// read what it "consumes" (so that ASan sees the reads); a multi-gigabyte slice is only sampled at both ends
+	if (c <= ((size_t)1 << 16)) {
+		for (size_t i = 0; i < c; ++i)
+			s->in_sum += in[*in_pos + i];
+	} else {
+		for (size_t i = 0; i < 4096; ++i)
+			s->in_sum += in[*in_pos + i] + in[*in_pos + c - 1 - i];
+	}
 	for (size_t i = 0; i < p; ++i)
 		out[*out_pos + i] = s->fill++;
 	*in_pos += c;
